@@ -107,6 +107,9 @@ SCALAR_LITERALS = [
     # every escape the URI grammar has, one by one and all together; the string escapes; escapes it does not have
     '`a\\:b`', '`a\\/b`', '`a\\?b`', '`a\\#b`', '`a\\[b`', '`a\\]b`', '`a\\@b`', '`a\\&b`', '`a\\=b`', '`a\\;b`',
     '`a\\`b`', '`a\\\\b`', '`\\:\\/\\?\\#\\[\\]\\@\\&\\=\\;`', '`\\u0041\\u00e9`', '`a\\$b`', '`a\\"b`', '`a\\nb`', '`a\\xb`',
+    # a nested grid as a scalar whose header names no version, is cut short, or is missing
+    '<<ver:"three"\na\n1\n>>', '[<<ver:"three"\na\n1\n>>]', '{k:<<ver:"three"\na\n1\n>>}', '<<ver:"3.0\na\n1\n>>',
+    '<<\nver:"x.y"\na\n1\n>>', '<<a\n1\n>>', '<<ver:"3.0"\na\n1\n>>', '<<ver:"2.0"\na\n[1]\n>>', '<<ver:""\na\n1\n>>',
     '"\\b\\f\\n\\r\\t\\"\\\\\\$"', '"\\u0041\\U0041"', '"\\:"', '"\\/"', '"\\`"', "\"\\'\"",
 ]
 
@@ -284,6 +287,13 @@ def run(tier):
                 for s_ in cands:
                     for ver in ('2.0', '3.0'):
                         scal.append((len(scal) + 1, [ord(c) for c in s_], ver))
+            # many version numbers in one process: whatever the readers remember per version (grammars, nearest
+            # official version), the twentieth odd version and the official ones afterwards are read like the first
+            for rep_ in range(8):
+                for k in range(20):
+                    scal.append((len(scal) + 1, [ord(c) for c in '[1, 2]'], '3.%d' % (k + 1 + 20 * (rep_ % 2))))
+                for s_ in ('[1', '"x', '1', '@', '{a:}', '<<ver:"2.0"\na\n1\n>>', '<<ver:"2.0"\na\n"\n>>', 'Bin(', '`', 'C(1,'):
+                    scal.append((len(scal) + 1, [ord(c) for c in s_], '2.0'))
             souts = dict(pool.map(_scalar_outcome, scal, chunksize=100))
         for c in cases:
             o = outs[c['id']]
